@@ -63,6 +63,20 @@ func c02Gen(r *rand.Rand, tier string) []spec.Case {
 	}
 	// two launches through one ClientConfig object; the plugin's sets change in between (upgrade / downgrade)
 	relaunch := func(n int) {
+		// hosts without a legacy set and without version 0, relaunched against a plugin that serves version 0:
+		// whatever the first launch left behind must not make the host offer a version it never registered
+		for _, h := range [][]int{{3, 4}, {1}, {2, 4}} {
+			for _, p2 := range [][]int{{0}, {0, 2}, {0, 1, 3}} {
+				p1 := []int{h[len(h)-1]}
+				add("relaunch", h, p1, "versioned", "versioned", "")
+				c := &out[len(out)-1]
+				var cc spec.C02Case
+				jsonUnmarshal(c.P, &cc)
+				side := c02Side(r, p2, pick(r, []string{"versioned", "legacy", "both"}))
+				cc.Plugin2 = &side
+				c.P = spec.MustJSON(cc)
+			}
+		}
 		for i := 0; i < n; i++ {
 			hm := 1 + r.Intn(31)
 			for len(subsetOf(hm)) < 2 {
